@@ -35,3 +35,7 @@ def run(run):
             run.total.counters["fixture_pairs_model_conformant:%s" % name] += n
         run.explore("%s pairs" % name, "mc.generic", "shard_defn",
                     generic.shard_plan(name, "pair", run.tier, run.phase, 64))
+        if hasattr(task, "fixture_states"):
+            nfx = len(task.fixture_states(run.tier))
+            run.explore("%s perturbed repository fixtures" % name, "mc.generic", "shard_fixture",
+                        [(name, run.tier, [i]) for i in range(nfx)])
